@@ -16,6 +16,9 @@ structure HashWF (C : Crypto) : Prop where
   leaf_nz : ∀ x, (C.leaf x).all (· == 0) = false
   parent_nz : ∀ n a b, (C.parent n a b).all (· == 0) = false
 
+/-- digests of root lists are 32 bytes -/
+def TreeWF (C : Crypto) : Prop := ∀ l, (C.tree l).length = 32
+
 theorem nodeAt_hash_len (C : Crypto) (hC : HashWF C) (bs : Array Bytes) (d o : Nat) : (nodeAt C bs d o).hash.length = 32 := by
   cases d with
   | zero => simp [nodeAt, RefTree.node, hC.leaf_len]
